@@ -351,6 +351,43 @@ def run(prog: Program, res: Result) -> None:
                     bad("R5-zero-denominator", n,
                         f"`{norm(n, 80)}` in {f.qualname}: the denominator `{norm(den, 50)}` is 0 for the valid configuration {shown} and the "
                         f"numerator is a Python scalar: ZeroDivisionError part-way through optimize()", mod=f.module)
+    # ---- R5b: int(..) / range(..) / round(..)->int of a numpy expression that is inf or nan somewhere on the configuration
+    # domain (numpy divides by zero silently: `max_cycles / np.ceil(np.log10(max_cycles))` is inf for max_cycles == 1) raises
+    # OverflowError / ValueError part-way through optimize()
+    import math as _math
+    n_int = 0
+    for f in prog.all_functions():
+        if f.cls is None or not prog.is_subclass(f.cls, ABSTRACT):
+            continue
+        for n in own_nodes(f):
+            if not (isinstance(n, ast.Call) and isinstance(n.func, ast.Name) and n.func.id in ("int", "range") and n.args):
+                continue
+            for a in n.args:
+                syms = set()
+                fn = _compile_np(f, a, syms)
+                if fn is None or not syms:
+                    continue
+                n_int += 1
+                bad_at = None
+                for mc in (range(1, 13) if ("mc" in syms or "cycle" in syms) else [1]):
+                    for cyc in (range(1, mc + 1) if "cycle" in syms else [1]):
+                        for ps in (range(1, 13) if "pop" in syms else [1]):
+                            try:
+                                v = fn({"mc": mc, "cycle": cyc, "pop": ps, "wk": 4, "n": ps})
+                            except Exception:
+                                continue
+                            if isinstance(v, float) and (_math.isinf(v) or _math.isnan(v)):
+                                bad_at = bad_at or {"max_cycles": mc, "cycle": cyc, "population_size": ps}
+                key = construct_key(prog, n, f.module)
+                res.ob(bad_at is None, None, key)
+                if bad_at is not None:
+                    shown = {k: v for k, v in bad_at.items() if (k == "max_cycles" and "mc" in syms) or (k == "cycle" and "cycle" in syms)
+                             or (k == "population_size" and "pop" in syms)}
+                    bad("R5-zero-denominator", n,
+                        f"`{norm(n, 80)}` in {f.qualname}: the argument is inf/nan for the valid configuration {shown} (numpy divides by "
+                        f"zero silently) and `{n.func.id}()` of it raises OverflowError/ValueError part-way through optimize()", mod=f.module)
+    res.count("int-of-config-expressions-evaluated", n_int)
+
     # ------------------------------------------------------------------ R6 partial stdlib math on data-dependent values
     PARTIAL = {"exp": "OverflowError above ~709", "cosh": "OverflowError above ~710", "sinh": "OverflowError above ~710",
                "expm1": "OverflowError", "pow": "OverflowError / ValueError", "ldexp": "OverflowError", "factorial": "ValueError",
@@ -649,6 +686,61 @@ def _compile(f: FuncInfo, e: ast.AST, syms: set, depth: int = 6):
     return None
 
 
+def _compile_np(f: FuncInfo, e: ast.AST, syms: set, depth: int = 6):
+    """Like _compile, with numpy semantics: x / 0 is inf (nan for 0 / 0), np.log10(0) is -inf, and the usual numpy
+    element-wise functions on scalars.  Only expressions over the configuration symbols and constants."""
+    import math
+    if depth <= 0:
+        return None
+    s_ = _sym(f, e)
+    if s_:
+        syms.add(s_)
+        return lambda env, s_=s_: float(env[s_])
+    if isinstance(e, ast.Constant) and isinstance(e.value, (int, float)) and not isinstance(e.value, bool):
+        return lambda env, v=e.value: float(v)
+    if isinstance(e, ast.Name):
+        d = _single_def(f, e.id)
+        if d is not None and not isinstance(d[1], ast.Assign):
+            return _compile_np(d[0], d[1], syms, depth - 1)
+        return None
+    if isinstance(e, ast.Attribute) and isinstance(e.value, ast.Name) and e.value.id == "self" and f.cls is not None:
+        return None
+    if isinstance(e, ast.UnaryOp) and isinstance(e.op, (ast.USub, ast.UAdd)):
+        a = _compile_np(f, e.operand, syms, depth - 1)
+        return None if a is None else ((lambda env: -a(env)) if isinstance(e.op, ast.USub) else a)
+    if isinstance(e, ast.BinOp):
+        a, b = _compile_np(f, e.left, syms, depth - 1), _compile_np(f, e.right, syms, depth - 1)
+        if a is None or b is None:
+            return None
+
+        def div(x, y):
+            if y == 0:
+                return float("nan") if x == 0 or x != x else (float("inf") if x > 0 else float("-inf"))
+            return x / y
+        ops = {ast.Add: lambda x, y: x + y, ast.Sub: lambda x, y: x - y, ast.Mult: lambda x, y: x * y, ast.Div: div,
+               ast.Pow: lambda x, y: x ** y}
+        op = ops.get(type(e.op))
+        return None if op is None else (lambda env: op(a(env), b(env)))
+    if isinstance(e, ast.Call) and not e.keywords and len(e.args) == 1:
+        d = dotted(e.func) or ""
+        a = _compile_np(f, e.args[0], syms, depth - 1)
+        if a is None:
+            return None
+        table = {
+            "np.log10": lambda x: float("-inf") if x == 0 else (float("nan") if x < 0 else math.log10(x)),
+            "np.log": lambda x: float("-inf") if x == 0 else (float("nan") if x < 0 else math.log(x)),
+            "np.log2": lambda x: float("-inf") if x == 0 else (float("nan") if x < 0 else math.log2(x)),
+            "np.sqrt": lambda x: float("nan") if x < 0 else math.sqrt(x),
+            "np.ceil": lambda x: x if (x != x or x in (float("inf"), float("-inf"))) else float(math.ceil(x)),
+            "np.floor": lambda x: x if (x != x or x in (float("inf"), float("-inf"))) else float(math.floor(x)),
+            "np.round": lambda x: x if (x != x or x in (float("inf"), float("-inf"))) else float(round(x)),
+            "np.abs": abs, "abs": abs, "float": float,
+        }
+        fn = table.get(d)
+        return None if fn is None else (lambda env: fn(a(env)))
+    return None
+
+
 def _python_scalar(f: FuncInfo, e: ast.AST, depth: int = 5) -> bool:
     """Is the numerator certainly a Python int/float (so that `/ 0` raises ZeroDivisionError)?"""
     if depth <= 0:
@@ -690,6 +782,9 @@ _W = "pyvolutionary/whales/whales_optimization.py"
 _IW = "pyvolutionary/invasive_weed/invasive_weed_optimization.py"
 _GW = "pyvolutionary/grey_wolf/grey_wolf_optimization.py"
 VARIANTS = [
+    V("int-of-infinite-config-expression", "pyvolutionary/battle_royale/battle_royale_optimization.py",
+      "        self.__dyn_delta = np.round(self._config.max_cycles / np.ceil(np.log10(self._config.max_cycles)))",
+      "        self.__dyn_delta = int(np.round(self._config.max_cycles / np.ceil(np.log10(self._config.max_cycles))))", "C06.R5"),
     V("inplace-float-on-position-array", _GW, "            pos = np.array(wolf.position)\n",
       "            pos = np.array(wolf.position)\n            pos += 0.5 * np.random.random()\n", "C06.R7"),
     V("inplace-divide-zeros-like-position", _GW, "            pos = np.array(wolf.position)\n",
